@@ -246,7 +246,18 @@ def mutated(draw, cards, pool=ALL_CARDS):
     cards = list(cards)
     if not cards:
         return cards
-    how = draw(st.integers(0, 3))
+    how = draw(st.integers(0, 5))
+    if how == 4:
+        # a hand padded with a card of unknown rank (not a card set of the
+        # right size any more)
+        return cards + [draw(st.sampled_from(['??', '?s', '?h']))]
+    if how == 5:
+        # one card swapped for an unknown one
+        i = draw(st.integers(0, len(cards) - 1))
+        # (rank unknown; a known rank with an unknown suit, 'A?', is the
+        # half-known card that is outside the stated domain, see MANIFEST)
+        cards[i] = draw(st.sampled_from(['??', '?c', '?d']))
+        return cards
     if how == 0:
         # replace one card
         i = draw(st.integers(0, len(cards) - 1))
@@ -370,10 +381,24 @@ def check(case, stats):
     for cards in (case['a'], case['b']):
         ref = refeval.key(cname, [(c[0], c[1]) for c in cards])
         form = case.get('form')
-        if '??' in cards and form == 'set':
+        if any('?' in c for c in cards) and form == 'set':
             form = 'tuple'
         h = _build(cls, cards, form)
         accepted = not isinstance(h, Exception)
+        if accepted and form == 'list' and not any('?' in c for c in cards):
+            # a hand keeps its own cards: the caller's list may be reused
+            from pokerkit import Card
+            buf = list(Card.parse(''.join(cards)))
+            h_alias = cls(buf)
+            buf[:] = list(Card.parse('7c5d4h3s2c'))[:len(buf)]
+            buf.reverse()
+            fresh = cls(''.join(cards))
+            if tuple(h_alias.cards) != tuple(fresh.cards) or \
+                    not (h_alias == fresh) or h_alias < fresh \
+                    or h_alias > fresh:
+                out.append(V(ID, 'hand_aliases_callers_list', cname,
+                             f'{cname}(list of {"".join(cards)}) changed to'
+                             f' {h_alias!r} after the list was reused'))
         if accepted != (ref is not None):
             out.append(V(ID, 'validity', f'{cname}:{form or "str"}',
                          f'{cname}({"".join(cards)!r} as {form or "str"}):'
